@@ -1,9 +1,16 @@
 #!/bin/sh
-# Complete regression of the check against the recorded corpus (about 25 minutes):
+# Complete regression of the check against the recorded corpus (about two hours):
 #   every sensitivity change S* and every seeded change M* must be reported (exit 1),
 #   every refactoring R* / REF* must leave the check silent (exit 0).
 # Patches that no longer apply to /repo's HEAD (M13, see its meta.json) are skipped.
-# usage: tools/regress.sh            (honours VERIF_SEED)
+# usage: tools/regress.sh            (honours VERIF_SEED and VERIF_REPO)
+# Every check rebuilds the simulator from this directory and patches $VERIF_REPO (default /repo),
+# so nothing here or there may be edited while it runs. To keep working meanwhile, run it from a
+# frozen copy against a scratch worktree:
+#   git -C /repo worktree add /tmp/repo-frozen HEAD && cp /repo/Cargo.lock /tmp/repo-frozen/
+#   rsync -a --exclude target /verif/ /tmp/verif-frozen/
+#   sed -i 's#path = "/repo"#path = "/tmp/repo-frozen"#' /tmp/verif-frozen/{sim,miri-conc}/Cargo.toml
+#   (cd /tmp/verif-frozen && VERIF_REPO=/tmp/repo-frozen tools/regress.sh)
 VERIF="$(cd "$(dirname "$0")/.." && pwd)"
 cd "$VERIF" || exit 2
 out="$(mktemp)"
